@@ -473,3 +473,88 @@ SPECS["C09"] = dict(
     level_text="bounded symbolic verification at n = 2 only, plus the zero-matrix exits; the iterative part of the property (n >= 3) is explicitly not claimed",
     level_note="n=2; exact arithmetic; domain restricted away from deflation thresholds",
 )
+
+
+# ------------------------------------------------------------------------------------------------
+# C06 / C14: mode P (poisoned history, real kernels, concrete operators)
+P_INSTANCES = ["operators (n=6): diag(6..1), 1-D Laplacian, rank-1 (i+1)(j+1)/8, block diagonal, cyclic permutation, fixed integer matrix (symmetrised for the symmetric solvers)",
+               "start vectors: generic (0.25+0.125*((5i) mod 7)), e0, ones", "arguments: LargestAlge / LargestMagn, maxit 30, tol 1e-10"]
+
+
+def c06_jobs(tier):
+    return [dict(harness="c06_poison", pattern=r"^reuse/|^shared-operator/|^operator-untouched/|^svd/", label="poisoned-history reruns, shared operator, operator probes, SVD re-run", deadline=250, sanitize=(tier != "quick"))]
+
+
+SPECS["C06"] = dict(
+    run=std_run, jobs=c06_jobs, post=reg_post([("c06_complex_shift_restore.cpp", ()), ("c16_svd_cache.cpp", ())]),
+    explanation=("Mode P: the REAL solvers with the REAL kernels run on concrete operators (all arithmetic is native double arithmetic), and what is symbolic is the HISTORY: every member of the solver object that "
+                 "an earlier init()/compute() - finished, unconverged or interrupted by an exception - could have written (Ritz values/vectors/estimates, flags, counters, info, V, H, f, beta, k) is overwritten "
+                 "with fresh 'poison' symbols (three shapes: sized as after a complete run, half-written with k in the middle, never initialised), after a genuine earlier run with other arguments. Then "
+                 "init(v); compute(args) runs. Decided by the engine: no branch condition may mention a poison symbol (taint: any such branch is a violation and ends the path) and no public result may be a "
+                 "term over poison; the concrete results (eigenvalues, eigenvectors, num_iterations, num_operations, return value, info) must be bit-identical to those of a freshly constructed solver. One "
+                 "poisoned run covers EVERY earlier history at once (inductive-step pattern). Also: two solver objects sharing one operator object interleaved at call granularity; op.perform_op(w) before and "
+                 "after compute() bit-identical for the shift-and-invert solvers incl. the complex-shift solver, whose second init()+compute() must repeat the first; PartialSVDSolver: compute(); U,V; "
+                 "compute(other args); U,V equal a fresh object's. Replay drivers of the two defects found and fixed here re-run."),
+    functions=["HermEigsBase/GenEigsBase::init, compute and everything below (real Arnoldi, Lanczos, TridiagEigen, UpperHessenbergEigen/Schur, TridiagQR, UpperHessenbergQR, DoubleShiftQR, SimpleRandom)",
+               "SymEigsSolver, GenEigsSolver, SymEigsShiftSolver, GenEigsRealShiftSolver, GenEigsComplexShiftSolver::sort_ritzpair, PartialSVDSolver::compute/matrix_U/matrix_V/singular_values"],
+    bounds={"quick": {"instances": P_INSTANCES, "poison shapes": 3, "cases": 107}, "thorough": {"instances": P_INSTANCES, "poison shapes": 3, "cases": 107, "sanitizers": "ASan+UBSan"}},
+    outside=["the operators / arguments are the listed instances, not all matrices: the quantifier covered symbolically is the history", "Davidson, LOBPCG", "bit-identity is established within the symbolic-scalar "
+             "instantiation (whose concrete arithmetic is IEEE double; Eigen's product kernels may order sums differently from the vectorised double build)", "thread interleavings (C20)"],
+    assumptions=["integer / boolean members carry sentinel values (777, 555, flags all-true / one-true, k = ncv, ncv/2, 0) instead of symbols: enumeration, not a solver verdict"],
+    policy=dict(events="violation", allow_cut=False),
+    technique="real solver code on concrete operators with every piece of earlier state replaced by symbols; taint tracking through the symbolic scalar + bit-wise comparison with a fresh solver",
+    level_text="history-universal check by state poisoning (any earlier history leaves a state covered by the poisoned pre-state) on 6 fixed operators x 3 start vectors x 3 state shapes per solver class",
+    level_note="inputs are fixed instances; the history is symbolic; sentinel integers enumerated",
+)
+
+
+def c14_jobs(tier):
+    if tier == "quick":
+        return [dict(harness="c06_poison", pattern=r"^fault/.*/faults1$", label="single operator fault at every application", deadline=200, sanitize=True),
+                dict(harness="c06_poison", pattern=r"^reuse/.*/shape[12]$", label="states an interrupted init()/compute() can leave (poisoned)", deadline=200)]
+    return [dict(harness="c06_poison", pattern=r"^fault/", label="single and double operator faults at every application", deadline=900, sanitize=True),
+            dict(harness="c06_poison", pattern=r"^reuse/", label="poisoned states", deadline=300, sanitize=True)]
+
+
+SPECS["C14"] = dict(
+    run=std_run, jobs=c14_jobs,
+    explanation=("A failing user operator: the operator wrapper throws a tagged exception at a nondeterministically chosen application - the choice is a fork of the symbolic explorer at EVERY application, so every "
+                 "fault index from 1 to the fault-free total is explored (pairs of faults in the thorough tier) on the real solver with the real kernels. Per fault position: the exception that reaches the "
+                 "caller is the operator's own object (tag checked), the harness is built with AddressSanitizer/LeakSanitizer/UBSan (any report fails the path), and after the fault is gone a new init() + "
+                 "compute() on the SAME solver object returns eigenvalues, eigenvectors, iteration and operation counts bit-identical to a solver that never saw the fault. In addition (reduction to C06): every "
+                 "state an interrupted init()/compute() can leave - including the never-initialised shape when the very first init() threw - is an instance of the poisoned pre-states, from which "
+                 "init();compute() is shown to be independent of the poison."),
+    functions=["SymEigsSolver / GenEigsSolver init, compute, restart with the real Lanczos / Arnoldi (exception crossing factorize_from, expand_basis, init, restart)", "ArnoldiOp::perform_op"],
+    bounds={"quick": {"fault positions": "every application of the fault-free run (22-25 symmetric, 11 general)", "operators": "Laplacian, block diagonal (symmetric), integer matrix (general), n=6"},
+            "thorough": {"fault positions": "all single faults and all ordered pairs"}},
+    outside=["faults in the B-operator of generalized problems", "SparseRegularInverse::solve throwing through CG (library path)", "shift-and-invert / SVD solver classes"],
+    assumptions=["the operator is otherwise deterministic"],
+    policy=dict(events="violation", allow_cut=False),
+    technique="fault position as a symbolic choice enumerated by the path explorer on the real solver; sanitizers + bit-wise comparison with the fault-free baseline; poisoned-state independence",
+    level_text="exhaustive fault-position enumeration (single, thorough: pairs) on three operator instances plus history-universal state poisoning",
+    level_note="fixed operator instances; single-threaded",
+)
+
+
+def c16_jobs(tier):
+    return [dict(harness="c16_svd", pattern=r".", label="operators A'A / AA' and accessor algebra", deadline=250),
+            dict(harness="c06_poison", pattern=r"^svd/", label="second compute() describes the latest run", deadline=100)]
+
+
+SPECS["C16"] = dict(
+    run=std_run, jobs=c16_jobs, post=reg_post([("c16_svd_cache.cpp", ())]),
+    explanation=("PartialSVDSolver decided piecewise: (1) SVDTallMatOp / SVDWideMatOp on fully symbolic 3x2, 2x3, 3x3, 4x2, 2x4 matrices, dense and sparse, row- and column-major: y = A'A x resp. A A' x and "
+                 "dimension min(m,n); (2) the accessor algebra from an ARBITRARY converged state of the nested symmetric solver (symbolic positive eigenvalues theta, symbolic Ritz vectors and basis, "
+                 "nconv = 0..ncomp): singular_values() = s with s >= 0, s^2 = theta; matrix_U(k)/matrix_V(k) have min(k, nconv) columns for every k = 0..ncomp+1; tall: V = W, U s = A v; wide/square: U = W, "
+                 "V s = A'u - hence A V = U S, A'U = V S, and U'U = I, V'V = I follow from the eigen-relation W'W = I, (A'A)W = W Theta guaranteed by C01/C07/C09; (3) history: compute(); U,V; compute(other "
+                 "arguments); U,V equal a fresh object's answer bit for bit (mode P instances, the stale-cache defect found here is fixed); (4) the nested solver's guarantees (ordering LargestAlge = "
+                 "non-increasing singular values, genuine eigenpairs) are C01/C04/C05 on the shared HermEigsBase code. Replay driver for the cache / leak defects re-runs."),
+    functions=["SVDTallMatOp::perform_op, SVDWideMatOp::perform_op", "PartialSVDSolver constructor, compute, singular_values, matrix_U, matrix_V"],
+    bounds={"quick": {"operator shapes": "3x2, 2x3, 3x3, 4x2, 2x4", "accessor states": "4x3, 3x4, 3x3; ncomp=2; nconv 0..2; k 0..3"}, "thorough": "same"},
+    outside=[ROUNDING + " (so slightly negative computed eigenvalues under sqrt and the tolerance clause are not visible)", "division by a zero singular value on exactly rank-deficient input (theta > 0 assumed)"],
+    assumptions=["exact real arithmetic", "converged eigenvalues of A'A are positive (full rank on the converged part)"],
+    policy=dict(events="violation", allow_cut=False),
+    technique="symbolic execution of the SVD operators and of the accessor code from an arbitrary eigen-state; z3 proves the factor identities; mode-P rerun for the history clause",
+    level_text="bounded symbolic verification of operator and accessor algebra at shapes up to 4x3; the eigen-solver underneath is covered by C01/C04/C05/C07",
+    level_note="compositional; exact arithmetic; full-rank assumption",
+)
